@@ -42,8 +42,17 @@ theorem sigOf_length (ps : List String) : (sigOf ps).length = ps.length := by si
 
 /-! ### the table: weak agreement with the final table -/
 
-/-- the compile context of the main module of a program without prelude definitions -/
-def cxMain : Cx := { modMap := [[]], included := [0], natives := c01Natives }
+/-- what `moduleC` records for the prelude definition `def !empty: {}[];` compiled first -/
+def emptyMDef : MDef := { name := emptyName, sig := [], id := 0, tr := [] }
+
+/-- the compile context of the main module: without prelude definitions (`pe = false`), or with
+the prelude consisting of `def !empty: {}[];` (`pe = true`) -/
+def cxMain (pe : Bool) : Cx :=
+  { modMap := [if pe then [emptyMDef] else []], included := [0], natives := c01Natives }
+
+/-- with `pe`, the final table starts with the compiled `def !empty: {}[];` -/
+def PreOK (pe : Bool) (tabf : List CTerm) : Prop :=
+  pe = true → tabf[0]? = some (.path 1 [(.range none none, .essential)]) ∧ tabf[1]? = some .objEmpty
 
 /-- `st'` extends the table of `st` (`compile` only appends; placeholders are filled before return) -/
 def Ext (st st' : St) : Prop := ∃ s, st'.terms = st.terms ++ s
@@ -92,25 +101,26 @@ theorem AgreeFrom.of_ext {k : Nat} {a b : St} {tf : List CTerm} (h : AgreeFrom k
 
 /-- `c` is what `term` returns for `t` under `loc` from some table, and the final table agrees
 with everything that call appended -/
-def CompiledT (tabf : List CTerm) (loc : Locals) (t : Term) (c : CTerm) : Prop :=
-  ∃ tr st0 tr' st1, term cxMain loc tr t st0 = (c, tr', st1) ∧ AgreeFrom st0.terms.length st1.terms tabf
+def CompiledT (pe : Bool) (tabf : List CTerm) (loc : Locals) (t : Term) (c : CTerm) : Prop :=
+  ∃ tr st0 tr' st1, term (cxMain pe) loc tr t st0 = (c, tr', st1) ∧ AgreeFrom st0.terms.length st1.terms tabf
 
 /-- `id` is what `iterm` returns for `t` under `loc` -/
-def CompiledI (tabf : List CTerm) (loc : Locals) (t : Term) (id : TermId) : Prop :=
-  ∃ c, tabf[id]? = some c ∧ CompiledT tabf loc t c
+def CompiledI (pe : Bool) (tabf : List CTerm) (loc : Locals) (t : Term) (id : TermId) : Prop :=
+  ∃ c, tabf[id]? = some c ∧ CompiledT pe tabf loc t c
 
 /-- the definition `d`, written where the locals were `loc'`, has its body at `id` -/
-def DefOK (tabf : List CTerm) (d : Def) (loc' : Locals) (id : TermId) : Prop :=
-  CompiledI tabf (loc'.pushParent d.name (sigOf d.params) id) d.body id ∧ inFragment d.body = true
+def DefOK (pe : Bool) (tabf : List CTerm) (d : Def) (loc' : Locals) (id : TermId) : Prop :=
+  CompiledI pe tabf (loc'.pushParent d.name (sigOf d.params) id) d.body id ∧ inFragment pe d.body = true ∧
+    (∀ p ∈ d.params, p ≠ emptyName)
 
 /-- one `iterm_tr` step seen from the final table -/
-theorem compiledI_of_step {tabf : List CTerm} {loc : Locals} {tr : Tr} {t : Term} {st st1 st3 : St}
+theorem compiledI_of_step {pe : Bool} {tabf : List CTerm} {loc : Locals} {tr : Tr} {t : Term} {st st1 st3 : St}
     {c : CTerm} {tr' : Tr} {k : Nat}
-    (hterm : term cxMain loc tr t (st.insert .id).2 = (c, tr', st1))
+    (hterm : term (cxMain pe) loc tr t (st.insert .id).2 = (c, tr', st1))
     (hframe : Ext (st.insert .id).2 st1)
     (hlater : Ext (st1.set st.terms.length c) st3)
     (hk : k ≤ st.terms.length)
-    (hag : AgreeFrom k st3.terms tabf) : CompiledI tabf loc t st.terms.length := by
+    (hag : AgreeFrom k st3.terms tabf) : CompiledI pe tabf loc t st.terms.length := by
   obtain ⟨hext, hget⟩ := Ext.set_hole c .id hframe
   have hlen1 : st.terms.length < st1.terms.length := by
     have := hframe.len; simp [St.insert] at this; omega
@@ -125,18 +135,18 @@ theorem compiledI_of_step {tabf : List CTerm} {loc : Locals} {tr : Tr} {t : Term
 
 /-! ### the invariant -/
 
-inductive Rel (tabf : List CTerm) : Env → Locals → MEnv → Prop where
-  | nil : Rel tabf [] {} []
-  | v {σ loc e x w} : Rel tabf σ loc e → Rel tabf (.var x w :: σ) (loc.pushBind (.var x)) (.val w :: e)
-  | l {σ loc e x i} : Rel tabf σ loc e → Rel tabf (.label x i :: σ) (loc.pushBind (.label x)) (.lbl i :: e)
-  | a {σ loc e σ' loc' e' p t id} : Rel tabf σ loc e → Rel tabf σ' loc' e' →
-      (CompiledI tabf loc' t id ∧ inFragment t = true) →
-      Rel tabf (.arg p t σ' :: σ) (loc.pushArg p) (.fn id e' :: e)
-  | sib {σ loc e d id trb} : Rel tabf σ loc e → DefOK tabf d loc id →
-      Rel tabf (.defn d σ :: σ) (loc.pushSibling d.name (sigOf d.params) id trb) e
-  | par {σ loc e σ' loc' d id} : Rel tabf σ loc e → Rel tabf σ' loc' (e.drop (loc.total - loc'.total)) →
-      loc'.total ≤ loc.total → DefOK tabf d loc' id →
-      Rel tabf (.defn d σ' :: σ)
+inductive Rel (pe : Bool) (tabf : List CTerm) : Env → Locals → MEnv → Prop where
+  | nil : Rel pe tabf [] {} []
+  | v {σ loc e x w} : Rel pe tabf σ loc e → Rel pe tabf (.var x w :: σ) (loc.pushBind (.var x)) (.val w :: e)
+  | l {σ loc e x i} : Rel pe tabf σ loc e → Rel pe tabf (.label x i :: σ) (loc.pushBind (.label x)) (.lbl i :: e)
+  | a {σ loc e σ' loc' e' p t id} : Rel pe tabf σ loc e → Rel pe tabf σ' loc' e' →
+      (CompiledI pe tabf loc' t id ∧ inFragment pe t = true) → p ≠ emptyName →
+      Rel pe tabf (.arg p t σ' :: σ) (loc.pushArg p) (.fn id e' :: e)
+  | sib {σ loc e d id trb} : Rel pe tabf σ loc e → DefOK pe tabf d loc id → d.name ≠ emptyName →
+      Rel pe tabf (.defn d σ :: σ) (loc.pushSibling d.name (sigOf d.params) id trb) e
+  | par {σ loc e σ' loc' d id} : Rel pe tabf σ loc e → Rel pe tabf σ' loc' (e.drop (loc.total - loc'.total)) →
+      loc'.total ≤ loc.total → DefOK pe tabf d loc' id → d.name ≠ emptyName →
+      Rel pe tabf (.defn d σ' :: σ)
         { loc with funs := loc.funs.push (d.name, (sigOf d.params).length) (.parent (sigOf d.params) id, loc'.total) } e
 
 /-- lookup of a `bound` key that the pushed key differs from, one binding deeper -/
@@ -145,7 +155,7 @@ theorem shift_index {β : Type} (e : List β) (b : β) (total pos : Nat) (h1 : 1
   have : total + 1 - pos = (total - pos) + 1 := by omega
   rw [this]; simp
 
-theorem findVar_rel {tabf σ loc e} (h : Rel tabf σ loc e) (x : String) :
+theorem findVar_rel {tabf σ loc e} (h : Rel pe tabf σ loc e) (x : String) :
     match findVar σ x with
     | some w => ∃ pos, loc.bound.getLast (.var x) = some pos ∧ 1 ≤ pos ∧ pos ≤ loc.total ∧
         e[loc.total - pos]? = some (.val w)
@@ -178,7 +188,7 @@ theorem findVar_rel {tabf σ loc e} (h : Rel tabf σ loc e) (x : String) :
       obtain ⟨pos, h1, h2, h3, h4⟩ := ih
       exact ⟨pos, by simp [Locals.pushBind, MapVec.getLast_push_ne _ _ _ _ hne, h1], h2,
         by simp [Locals.pushBind]; omega, by simp only [Locals.pushBind]; rw [shift_index _ _ _ _ h2 h3]; exact h4⟩
-  | @a σ loc e σ' loc' e' p t id _ _ _ ih _ =>
+  | @a σ loc e σ' loc' e' p t id _ _ _ _ ih _ =>
     simp only [findVar]
     have hne : BindK.fn p ≠ BindK.var x := by intro h; cases h
     cases hf : findVar σ x with
@@ -189,10 +199,10 @@ theorem findVar_rel {tabf σ loc e} (h : Rel tabf σ loc e) (x : String) :
       exact ⟨pos, by simp [Locals.pushArg, Locals.pushBind, MapVec.getLast_push_ne _ _ _ _ hne, h1], h2,
         by simp [Locals.pushArg, Locals.pushBind]; omega,
         by simp only [Locals.pushArg, Locals.pushBind]; rw [shift_index _ _ _ _ h2 h3]; exact h4⟩
-  | sib _ _ ih => simpa [findVar, Locals.pushSibling] using ih
-  | par _ _ _ _ ih _ => simpa [findVar] using ih
+  | sib _ _ _ ih => simpa [findVar, Locals.pushSibling] using ih
+  | par _ _ _ _ _ ih _ => simpa [findVar] using ih
 
-theorem findLabel_rel {tabf σ loc e} (h : Rel tabf σ loc e) (x : String) :
+theorem findLabel_rel {tabf σ loc e} (h : Rel pe tabf σ loc e) (x : String) :
     match findLabel σ x with
     | some n => ∃ pos, loc.bound.getLast (.label x) = some pos ∧ 1 ≤ pos ∧ pos ≤ loc.total ∧
         e[loc.total - pos]? = some (.lbl n)
@@ -225,7 +235,7 @@ theorem findLabel_rel {tabf σ loc e} (h : Rel tabf σ loc e) (x : String) :
       obtain ⟨pos, h1, h2, h3, h4⟩ := ih
       exact ⟨pos, by simp [Locals.pushBind, MapVec.getLast_push_ne _ _ _ _ hne, h1], h2,
         by simp [Locals.pushBind]; omega, by simp only [Locals.pushBind]; rw [shift_index _ _ _ _ h2 h3]; exact h4⟩
-  | @a σ loc e σ' loc' e' p t id _ _ _ ih _ =>
+  | @a σ loc e σ' loc' e' p t id _ _ _ _ ih _ =>
     simp only [findLabel]
     have hne : BindK.fn p ≠ BindK.label x := by intro h; cases h
     cases hf : findLabel σ x with
@@ -236,27 +246,27 @@ theorem findLabel_rel {tabf σ loc e} (h : Rel tabf σ loc e) (x : String) :
       exact ⟨pos, by simp [Locals.pushArg, Locals.pushBind, MapVec.getLast_push_ne _ _ _ _ hne, h1], h2,
         by simp [Locals.pushArg, Locals.pushBind]; omega,
         by simp only [Locals.pushArg, Locals.pushBind]; rw [shift_index _ _ _ _ h2 h3]; exact h4⟩
-  | sib _ _ ih => simpa [findLabel, Locals.pushSibling] using ih
-  | par _ _ _ _ ih _ => simpa [findLabel] using ih
+  | sib _ _ _ ih => simpa [findLabel, Locals.pushSibling] using ih
+  | par _ _ _ _ _ ih _ => simpa [findLabel] using ih
 
 /-- what `Locals` knows about a callable that the scope finds by name and arity -/
-def CalleeOK (tabf : List CTerm) (loc : Locals) (e : MEnv) (f : String) (n : Nat) : Callee → Prop
+def CalleeOK (pe : Bool) (tabf : List CTerm) (loc : Locals) (e : MEnv) (f : String) (n : Nat) : Callee → Prop
   | .arg t σ' => ∃ pos id loc' e', loc.funs.getLast (f, n) = some (.arg, pos) ∧ 1 ≤ pos ∧ pos ≤ loc.total ∧
-      e[loc.total - pos]? = some (.fn id e') ∧ Rel tabf σ' loc' e' ∧ (CompiledI tabf loc' t id ∧ inFragment t = true)
+      e[loc.total - pos]? = some (.fn id e') ∧ Rel pe tabf σ' loc' e' ∧ (CompiledI pe tabf loc' t id ∧ inFragment pe t = true)
   | .defn d σ' => ∃ fe vars id loc', loc.funs.getLast (f, n) = some (fe, vars) ∧
       (fe = .parent (sigOf d.params) id ∨ ∃ tr, fe = .sibling (sigOf d.params) id tr) ∧
-      vars ≤ loc.total ∧ loc'.total = vars ∧ Rel tabf σ' loc' (e.drop (loc.total - vars)) ∧
-      DefOK tabf d loc' id ∧ n = d.arity
+      vars ≤ loc.total ∧ loc'.total = vars ∧ Rel pe tabf σ' loc' (e.drop (loc.total - vars)) ∧
+      DefOK pe tabf d loc' id ∧ n = d.arity
 
-def LookupOK (tabf : List CTerm) (σ : Env) (loc : Locals) (e : MEnv) (f : String) (n : Nat) : Prop :=
+def LookupOK (pe : Bool) (tabf : List CTerm) (σ : Env) (loc : Locals) (e : MEnv) (f : String) (n : Nat) : Prop :=
   match findCall σ f n with
-  | some cl => CalleeOK tabf loc e f n cl
+  | some cl => CalleeOK pe tabf loc e f n cl
   | none => loc.funs.getLast (f, n) = none
 
 /-- one more run-time binding on top, `funs` untouched -/
 theorem calleeOK_shift {tabf loc e f n cl} (loc2 : Locals) (b : MB)
     (hf : loc2.funs.getLast (f, n) = loc.funs.getLast (f, n)) (ht : loc2.total = loc.total + 1)
-    (h : CalleeOK tabf loc e f n cl) : CalleeOK tabf loc2 (b :: e) f n cl := by
+    (h : CalleeOK pe tabf loc e f n cl) : CalleeOK pe tabf loc2 (b :: e) f n cl := by
   cases cl with
   | arg t σ' =>
     obtain ⟨pos, id, loc', e', h1, h2, h3, h4, h5, h6⟩ := h
@@ -271,7 +281,7 @@ theorem calleeOK_shift {tabf loc e f n cl} (loc2 : Locals) (b : MB)
 /-- a `funs` entry under another key on top, bindings untouched -/
 theorem calleeOK_funs {tabf loc e f n cl} (loc2 : Locals)
     (hf : loc2.funs.getLast (f, n) = loc.funs.getLast (f, n)) (ht : loc2.total = loc.total)
-    (h : CalleeOK tabf loc e f n cl) : CalleeOK tabf loc2 e f n cl := by
+    (h : CalleeOK pe tabf loc e f n cl) : CalleeOK pe tabf loc2 e f n cl := by
   cases cl with
   | arg t σ' =>
     obtain ⟨pos, id, loc', e', h1, h2, h3, h4, h5, h6⟩ := h
@@ -280,8 +290,8 @@ theorem calleeOK_funs {tabf loc e f n cl} (loc2 : Locals)
     obtain ⟨fe, vars, id, loc', h1, h2, h3, h4, h5, h6, h7⟩ := h
     exact ⟨fe, vars, id, loc', by rw [hf, h1], h2, by omega, h4, by rw [ht]; exact h5, h6, h7⟩
 
-theorem findCall_rel {tabf σ loc e} (h : Rel tabf σ loc e) (f : String) (n : Nat) :
-    LookupOK tabf σ loc e f n := by
+theorem findCall_rel {tabf σ loc e} (h : Rel pe tabf σ loc e) (f : String) (n : Nat) :
+    LookupOK pe tabf σ loc e f n := by
   induction h with
   | nil => simp [LookupOK, findCall, MapVec.getLast]
   | @v σ loc e y w _ ih =>
@@ -296,7 +306,7 @@ theorem findCall_rel {tabf σ loc e} (h : Rel tabf σ loc e) (f : String) (n : N
     cases hf : findCall σ f n with
     | none => rw [hf] at ih; simpa [Locals.pushBind] using ih
     | some cl => rw [hf] at ih; exact calleeOK_shift _ _ (by simp [Locals.pushBind]) (by simp [Locals.pushBind]) ih
-  | @a σ loc e σ' loc' e' p t id hσ hσ' hc ih _ =>
+  | @a σ loc e σ' loc' e' p t id hσ hσ' hc hpn ih _ =>
     unfold LookupOK at *
     simp only [findCall]
     by_cases hp : p = f ∧ n = 0
@@ -314,7 +324,7 @@ theorem findCall_rel {tabf σ loc e} (h : Rel tabf σ loc e) (f : String) (n : N
       | some cl =>
         rw [hf] at ih
         exact calleeOK_shift _ _ hfuns (by simp [Locals.pushArg, Locals.pushBind]) ih
-  | @sib σ loc e d id trb hσ hd ih =>
+  | @sib σ loc e d id trb hσ hd hdn ih =>
     unfold LookupOK at *
     simp only [findCall]
     by_cases hp : d.name = f ∧ n = d.arity
@@ -331,7 +341,7 @@ theorem findCall_rel {tabf σ loc e} (h : Rel tabf σ loc e) (f : String) (n : N
       cases hf : findCall σ f n with
       | none => rw [hf] at ih; simp only at ih ⊢; rw [hfuns]; exact ih
       | some cl => rw [hf] at ih; exact calleeOK_funs _ hfuns (by simp [Locals.pushSibling]) ih
-  | @par σ loc e σ' loc' d id hσ hσ' hle hd ih _ =>
+  | @par σ loc e σ' loc' d id hσ hσ' hle hd hdn ih _ =>
     unfold LookupOK at *
     simp only [findCall]
     by_cases hp : d.name = f ∧ n = d.arity
@@ -347,5 +357,15 @@ theorem findCall_rel {tabf σ loc e} (h : Rel tabf σ loc e) (f : String) (n : N
       | some cl =>
         rw [hf] at ih
         exact calleeOK_funs (loc := loc) _ (by simp [MapVec.getLast_push_ne _ _ _ _ hne]) rfl ih
+
+/-- no scope that arises binds the name `!empty` -/
+theorem findCall_empty_none {pe tabf σ loc e} (h : Rel pe tabf σ loc e) (n : Nat) : findCall σ emptyName n = none := by
+  induction h with
+  | nil => rfl
+  | v _ ih => simpa [findCall] using ih
+  | l _ ih => simpa [findCall] using ih
+  | a _ _ _ hp ih _ => simp only [findCall]; rw [if_neg (fun h => hp h.1)]; exact ih
+  | sib _ _ hd ih => simp only [findCall]; rw [if_neg (fun h => hd h.1)]; exact ih
+  | par _ _ _ _ hd ih _ => simp only [findCall]; rw [if_neg (fun h => hd h.1)]; exact ih
 
 end Jaq.Core
